@@ -101,8 +101,11 @@ def run(ctx, rep, tier):
                 if unknown:
                     report(B, rep, "placeholder-in-program", sx.replace("@", sexprs[i]), vocab[i], known, want=unknown[0])
         samples.append(dict(shape=sname, vocabulary=len(vocab), outcomes=len(r.alts), programs_read_back=n_prog, seconds=round(time.time() - t0, 2)))
-    # positional option placeholder (reachable only through the word `nope`)
+    n_fmt = format_level(B, rep, tier, samples)
     cov = B.coverage_common()
+    cov["format_level"] = dict(obligations=n_fmt, explanation="compile executed on -printf / -fprintf actions whose format is a list of 1..3 "
+                               "symbolic elements over {literal, supported directive, two unsupported directives, newline escape, \\c escape}; "
+                               "z3 decides Err <=> some element is an unsupported directive, at every position (also after \\c)")
     cov.update(explanation="scheme::compile executed symbolically (MIR) on %d tree shapes with one position ranging over the whole "
                "vocabulary (%d primaries incl. format directives) as a guarded union; z3 decides Err <=> unsupported per shape; "
                "error text inspected per unsupported construct; every Ok program is read back and evaluated by the runtime model "
@@ -111,6 +114,50 @@ def run(ctx, rep, tier):
                outside="two or more unsupported constructs in one tree (first one wins; not asserted which)",
                evaluations=len(rep.queries), distinct_nontrivial=len(rep.queries))
     rep.coverage = cov
+
+
+FMT_ALPHABET = [("lit", lambda tag: Adt("FormatElement", "Literal", [StringV([ord("a")])]), '(lit "a")', False),
+                ("name", lambda tag: Adt("FormatElement", "Field", [Adt("FormatField", "Name")]), "(field Name)", False),
+                ("depth", lambda tag: Adt("FormatElement", "Field", [Adt("FormatField", "Depth")]), "(field Depth)", True),
+                ("selinux", lambda tag: Adt("FormatElement", "Field", [Adt("FormatField", "SecurityContext")]), "(field SecurityContext)", True),
+                ("nl", lambda tag: Adt("FormatElement", "Special", [Adt("FormatSpecial", "Newline")]), "(special Newline)", False),
+                ("clear", lambda tag: Adt("FormatElement", "Special", [Adt("FormatSpecial", "Clear")]), "(special Clear)", False)]
+
+
+def format_level(B, rep, tier, samples):
+    """unsupported directives inside format strings, at every position"""
+    n_ob = 0
+    for action in ("PrintFormatted", "FilePrintFormatted"):
+        for n in (1, 2, 3):
+            sels, elems, asm = [], [], []
+            for i in range(n):
+                k = z3.Int("fsel_%s_%d_%d" % (action[:2], n, i))
+                sels.append(k)
+                asm.append(z3.And(k >= 0, k < len(FMT_ALPHABET)))
+                elems.append(Union([(k == j, mk("%d%d" % (n, i))) for j, (_, mk, _, _) in enumerate(FMT_ALPHABET)]))
+            fmt = VecV(elems)
+            args = [fmt] if action == "PrintFormatted" else [StringV([ord(c) for c in "out"]), fmt]
+            tree = Adt("Expression", "Action", [Adt("Action", action, args)])
+            r = compile_tree(B, tree)
+            err_g = r.guard(is_err)
+            panic_g = b_or(*[g for g, v in r.alts if isinstance(v, Panic)])
+            unsupported = z3.Or(*[k == j for k in sels for j, a in enumerate(FMT_ALPHABET) if a[3]])
+            for cname, bad in (("err-iff-unsupported", z3.Xor(err_g if is_sym(err_g) else z3.BoolVal(err_g), unsupported)), ("no-panic", panic_g)):
+                res, m = B.solve("format:%s[%d]:%s" % (action, n, cname), asm + list(r.assume), bad)
+                n_ob += 1
+                if res == z3.sat:
+                    picks = [m.eval(k, model_completion=True).as_long() for k in sels]
+                    body = " ".join(FMT_ALPHABET[j][2] for j in picks)
+                    sx = "(printf %s)" % body if action == "PrintFormatted" else '(fprintf "out" %s)' % body
+                    d = B.ctx.run_native_trees([sx])[0]
+                    uns = any(FMT_ALPHABET[j][3] for j in picks)
+                    if cname == "err-iff-unsupported" and (d.get("compile") == "err") == uns and d.get("compile") != "panic":
+                        rep.inconclusive.append("format-level counterexample %s does not reproduce natively" % sx)
+                        continue
+                    rep.violation("unsupported:format:" + cname, "%s: compile gives %s %r although the format %s an unsupported directive" % (
+                        sx, d.get("compile"), d.get("cerr") or d.get("panic") or "", "contains" if uns else "does not contain"), dict(sexpr=sx, native=d, claim=cname))
+            samples.append(dict(shape="format:%s[%d]" % (action, n), alphabet=[a[0] for a in FMT_ALPHABET], outcomes=len(r.alts)))
+    return n_ob
 
 
 def report(B, rep, cname, sx, vocab_entry, known, want=None):
